@@ -128,10 +128,35 @@ fn real_children(xot: &Xot, nodes: &[Node], n: Node) -> Vec<(u8, usize, String)>
         .collect()
 }
 
+/// merge neighbouring text entries (used when the forest had adjacent text nodes to begin with:
+/// which of the pre-existing neighbours a call merges is not fixed by the property, the character
+/// data and everything else is)
+fn coalesce(list: Vec<(u8, usize, String)>) -> Vec<(u8, usize, String)> {
+    let mut out: Vec<(u8, usize, String)> = Vec::new();
+    for (k, h, t) in list {
+        if k == 2 {
+            if let Some(last) = out.last_mut() {
+                if last.0 == 2 {
+                    last.2.push_str(&t);
+                    continue;
+                }
+            }
+        }
+        out.push((k, h, t));
+    }
+    out
+}
+
 pub fn h_c05_model() {
     let shape = sym::choose("shape", SHAPES);
-    let consolidate = sym::choose("consolidate", 2) == 1;
-    let mut w = build(shape, consolidate);
+    // 0: consolidation off, 1: on, 2: the forest is built with consolidation off (adjacent text
+    // nodes exist) and consolidation is switched on before the call
+    let mode = sym::choose("consolidate", 3);
+    let consolidate = mode >= 1;
+    let mut w = build(shape, mode == 1);
+    if mode == 2 {
+        w.xot.set_text_consolidation(true);
+    }
     let nodes0 = collect_all(&w.xot, &w.nodes);
     w.nodes = nodes0;
     let mut m = model_of(&w.xot, &w.nodes, consolidate);
@@ -364,12 +389,29 @@ pub fn h_c05_model() {
         let got_parent = w.xot.parent(n).and_then(|p| all_nodes.iter().position(|x| *x == p));
         sym::check("parent-as-model-predicts", want_parent == got_parent);
         if k == 0 || k == 1 {
-            sym::check("children-as-model-predicts", real_children(&w.xot, &all_nodes, n) == model_children(&m, i));
+            if mode == 2 {
+                sym::check("children-as-model-predicts", coalesce(real_children(&w.xot, &all_nodes, n)) == coalesce(model_children(&m, i)));
+            } else {
+                sym::check("children-as-model-predicts", real_children(&w.xot, &all_nodes, n) == model_children(&m, i));
+            }
+            // the sibling links agree with the child list (no foreign node sits in between)
+            let ch: Vec<Node> = w.xot.children(n).collect();
+            let mut links_ok = w.xot.first_child(n) == ch.first().copied() && w.xot.last_child(n) == ch.last().copied();
+            for (j, c) in ch.iter().enumerate() {
+                let want_next = ch.get(j + 1).copied();
+                let want_prev = if j > 0 { Some(ch[j - 1]) } else { None };
+                if w.xot.next_sibling(*c) != want_next || w.xot.previous_sibling(*c) != want_prev {
+                    links_ok = false;
+                }
+            }
+            sym::check("sibling-links-follow-the-child-list", links_ok);
         } else {
             sym::check("content-untouched", text_of(&w.xot, n) == m.text[i] || k != 3);
         }
     }
-    sym::check("number-of-text-nodes-as-model-predicts", live_text_model == live_text_real);
+    if mode != 2 {
+        sym::check("number-of-text-nodes-as-model-predicts", live_text_model == live_text_real);
+    }
     for (n, i) in &created {
         if m.kind[*i] == 1 {
             sym::check("new-element-children", real_children(&w.xot, &all_nodes, *n) == model_children(&m, *i));
